@@ -2,6 +2,7 @@ package main
 
 import (
 	"bytes"
+	"fmt"
 	"strings"
 
 	"github.com/piotrnar/gocoin/lib/others/bip39"
@@ -154,6 +155,39 @@ func caseSeed(o *vlib.Oracle, c *rec, cs Case) {
 		return
 	}
 	c.TieOK()
+}
+
+// caseSeedNfkd: A = mnemonic, passphrase as typed, NFKD form of that passphrase (DATA: computed offline with Unicode
+// 14 tables - Go's standard library has no normaliser; the pairs are in corpusCases). BIP39: "the mnemonic sentence
+// (in UTF-8 NFKD) used as the password and the string "mnemonic" + passphrase (again in UTF-8 NFKD) used as the salt".
+// gocoin (and therefore the model, which mirrors it) hashes the bytes as typed.
+func caseSeedNfkd(o *vlib.Oracle, c *rec, cs Case) {
+	m, pw, nf := string(unhx(cs.A[0])), string(unhx(cs.A[1])), string(unhx(cs.A[2]))
+	c.Eval("bip39-seed-nfkd", cs.A[0]+cs.A[1])
+	s, err := bip39.NewSeedWithErrorChecking(m, pw)
+	got := o.MustAsk("seed " + hx([]byte(m)) + " " + hx([]byte(pw)))
+	if err != nil {
+		c.TieFail("seed-nfkd", "NewSeedWithErrorChecking refuses a corpus mnemonic: "+err.Error(), cs)
+		return
+	}
+	if got != "ok "+hx(s) {
+		c.TieFail("seed", "model seed differs: "+got, cs)
+	} else {
+		c.TieOK()
+	}
+	want := refSeed(m, nf) // BIP39's seed: from the NFKD form
+	if pw == nf {
+		c.Hit("seed-passphrase-already-nfkd")
+		if !bytes.Equal(s, want) {
+			c.PropFail("bip39-seed", "seed differs from PBKDF2-HMAC-SHA512(mnemonic, \"mnemonic\"+passphrase, 2048, 64)", cs)
+		}
+		return
+	}
+	c.Hit("seed-passphrase-not-nfkd")
+	if !bytes.Equal(s, want) {
+		// known finding bip39-passphrase-not-nfkd
+		c.PropFail("bip39-passphrase-not-nfkd", fmt.Sprintf("bip39.NewSeed hashes the passphrase bytes as typed (%x) instead of their NFKD form (%x): the seed %x.. is not BIP39's %x.. - the same passphrase typed on a system that composes characters differently derives another wallet", pw, nf, s[:8], want[:8]), cs)
+	}
 }
 
 func itoa(n int) string {
